@@ -9,8 +9,8 @@ RULE = (
     "negotiations overlap), hold times and endings (release / abort / drop the connection), and a schedule (fifo/random/PCT + preemptions) "
     "interleaving the N negotiation threads. Oracle: replaying the acceptor's EVT_ESTABLISHED / EVT_RELEASED / EVT_ABORTED notifications in order, "
     "the number of simultaneously established associations never exceeds M; every A-ASSOCIATE-RJ on the wire is (2,3,2) = transient, "
-    "presentation-related, local-limit-exceeded; in 'sequential' cases (arrivals 3 virtual seconds apart, each association held to the end) "
-    "request k is accepted iff k <= M. Non-trivial = >=2 negotiations overlap in virtual time while established + negotiating > M."
+    "presentation-related, local-limit-exceeded; in 'sequential' cases (arrivals 1.5 virtual seconds apart, each association held to the end) "
+    "request k is accepted iff k <= M. Non-trivial = >=2 connections are in negotiation (between EVT_CONN_OPEN and established/rejected) at the same point of the event history while established + negotiating > M."
 )
 ASSUMPTIONS = [
     "E4 substitution table; ae.active_associations sees the scheduler's view of thread liveness (threading.enumerate substituted in pynetdicom.ae)",
@@ -30,7 +30,7 @@ def check_limit(ctx, case):
         else:
             end = {"release": [["release"]], "abort": [["abort"]], "drop": [["abort"]]}[r["end"]]
             reqs.append({"kind": "pynetdicom", "start": r["start"], "script": [["associate"], ["sleep", r["hold"]]] + end})
-    sc = {"timeouts": {"acse": 3, "dimse": 3, "network": 8}, "max_steps": 40000, "quantum": 0.1,
+    sc = {"timeouts": {"acse": 3, "dimse": 3, "network": 60}, "max_steps": 60000, "quantum": 0.1,
           "acceptor": {"kind": "pynetdicom", "handlers": {}, "max_assoc": M}, "requestors": reqs, "schedule": case["schedule"]}
     out = SC.run(sc)
     for p in out["raw"]:
@@ -41,9 +41,9 @@ def check_limit(ctx, case):
     cur, peak, est_keys = 0, 0, set()
     negotiating, overlap_over = set(), False
     for t, key, name, _ in rec.events:
-        if name == "EVT_REQUESTED":
+        if name == "EVT_CONN_OPEN":
             negotiating.add(key)
-        if name in ("EVT_ESTABLISHED", "EVT_REJECTED"):
+        if name in ("EVT_ESTABLISHED", "EVT_REJECTED", "EVT_ABORTED", "EVT_CONN_CLOSE"):
             negotiating.discard(key)
         if name == "EVT_ESTABLISHED":
             cur += 1
@@ -101,7 +101,7 @@ def strategy(ctx):
     def case(draw):
         M = draw(st.integers(1, 4))
         mode = draw(st.sampled_from(["burst", "burst", "mixed", "sequential"]))
-        N = draw(st.integers(1, 3 * M if mode != "sequential" else min(M + 2, 6)))
+        N = draw(st.integers(max(1, M - 1), 3 * M if mode != "sequential" else min(M + 2, 6)))
         rs = []
         for i in range(N):
             if mode == "burst":
@@ -111,8 +111,8 @@ def strategy(ctx):
                 start = draw(st.sampled_from([0.0, 0.1, 0.5, 1.0, 1.1, 2.0]))
                 hold = draw(st.sampled_from([0.0, 0.2, 0.9, 1.0, 2.0]))
             else:
-                start = 3.0 * i
-                hold = 3.0 * (N - i) + 2.0
+                start = 1.5 * i
+                hold = 1.5 * (N - i) + 1.0
             rs.append({"kind": draw(st.sampled_from(["raw", "raw", "pynetdicom"])), "start": start, "hold": hold, "end": draw(st.sampled_from(["release", "abort", "drop"]))})
         return {"max": M, "mode": mode, "requestors": rs,
                 "schedule": {"policy": draw(st.sampled_from(["fifo", "random", "random", "pct"])), "seed": draw(st.integers(0, 10**6)),
